@@ -11,13 +11,15 @@ pub struct Gen<'a> {
     pub n: usize,
 }
 
-const STRS: [&str; 34] = [
+const STRS: [&str; 44] = [
     "", "a", "Scan 1", "<", "&", "<&>\"'", "]]>", "a]]>b", "]]", " ", "  \t ", "\n", "line1\nline2", "\u{e4}\u{f6}\u{fc}\u{df}\u{20ac}",
     "\u{1F600} astral", "<![CDATA[x]]>", "&amp;", "end>", "{guid-1234-5678}", "tab\there", "\u{FFFD}\u{D7FF}\u{E000}", "x y  z",
     // carriage returns (XML parsers normalise literal line ends), legal control characters of the C1 block
     "a\rb", "a\r\nb", "\r", "]]\r>", "\r]]>\r", "\u{7f}\u{85}\u{9f}",
     // characters XML cannot carry: a string containing one cannot be stored
-    "\u{1}", "x\u{b}y", "\u{0}", "\u{fffe}", "end\u{ffff}", "\u{1b}[0m",
+    "\u{1}", "x\u{b}y", "\u{0}", "\u{fffe}", "end\u{ffff}", "\u{1b}[0m", "page\u{c}break", "\u{1f}", "\u{8}",
+    // text that looks like the markup the writer itself produces
+    "ends with <![CDATA[", "<![CDATA[\r\nx", "<![CDATA[\r", "a<![CDATA[]]>b", "]]><![CDATA[", "&#13;", "]]>&#13;<![CDATA[",
 ];
 
 /// XML 1.0 `Char`
@@ -44,7 +46,7 @@ pub fn gen_string(rng: &mut Rng) -> String {
                         1 => 0xA0 + rng.below(0x500) as u32,
                         2 => 0x4E00 + rng.below(0x1000) as u32,
                         3 => 0x1F300 + rng.below(0x300) as u32,
-                        4 => *rng.pick(&[0x9u32, 0xA, 0x20, 0x3C, 0x26, 0x5D, 0x3E, 0xD, 0x5D, 0x3E, 0x85, 0x1, 0xFFFE]),
+                        4 => *rng.pick(&[0x9u32, 0xA, 0x20, 0x3C, 0x26, 0x5D, 0x3E, 0xD, 0x5D, 0x3E, 0x85, 0x1, 0xFFFE, 0xC, 0x1F, 0x5B, 0x21]),
                         _ => 0x61 + rng.below(26) as u32,
                     };
                     char::from_u32(c).unwrap_or('x')
